@@ -51,6 +51,7 @@ def make_ops(thorough):
     ops.append(("conv", "length", "m", 1500.0))
     ops.append(("conv", "depth", "km", 2.0))
     ops.append(("conv", "time", "s", 2.0))
+    ops.append(("convB1", "length", "m", 1500.0))  # the same question while ANOTHER unit database is the current singleton
     ops.append(("queries",))  # every read-only getter of the manager at once, compared with the model
     ops.append(("othermgr",))  # a second manager alive at the same time does some work
     return ops
@@ -172,6 +173,14 @@ def apply(s, op, part, hist):
             result = mgr.GetNewId()
         elif kind == "conv":
             result = mgr.ConvertToCurrent(op[1], op[2], op[3])
+        elif kind == "convB1":
+            from barril.units import UnitDatabase as _UD
+
+            _UD.PushSingleton(worlds.contradicting("B1"))
+            try:
+                result = mgr.ConvertToCurrent(op[1], op[2], op[3])
+            finally:
+                _UD.PopSingleton()
         elif kind == "othermgr":
             result = other_manager_work()
         elif kind == "queries":
@@ -258,14 +267,15 @@ def apply(s, op, part, hist):
         if result != model.new_id() or result in mgr.GetUnitSystems():
             bad("newid", {"impl": result, "model": model.new_id()})
             return True
-    if kind == "conv":
+    if kind in ("conv", "convB1"):
         from barril.units import UnitDatabase
 
         to = model.current_default_unit(op[1])
         if to is None:
             exp = (op[3], op[2])
         else:
-            exp = (UnitDatabase.GetSingleton().Convert(op[1], op[2], to, op[3]), to)
+            # (the manager converts with the unit database that is the singleton at the time of the call)
+            exp = ((worlds.contradicting("B1") if kind == "convB1" else UnitDatabase.GetSingleton()).Convert(op[1], op[2], to, op[3]), to)
         if tuple(result) != exp:
             bad("convert-to-current", {"impl": result, "expected": exp})
             return True
